@@ -56,10 +56,12 @@ class FunctionCtx(object):
 
     def const(self, nm):
         c = self.module.consts.get(nm)
+        owner = self.module
         if c is None:
             for mi in self.session.modules.values():
                 if nm in mi.consts:
                     c = mi.consts[nm]
+                    owner = mi
                     break
         if c is None:
             return None
@@ -72,7 +74,7 @@ class FunctionCtx(object):
             return SV(z3.IntVal(val), TInt())
         if kind == "Opaque":
             t = self.parse_type(val)
-            return SV(z3.Const("const_" + nm, t.sort(self.cx)), t)
+            return SV(z3.Const(self.session.const_symbol(owner, nm), t.sort(self.cx)), t)
         raise Outside("constant kind %s" % kind)
 
     def resolve_field(self, cls, attr):
